@@ -1,1 +1,21 @@
-PROP = {'id': 'C03', 'level': 'proof', 'functions': ['Result.is_successful', 'Result.is_failed', 'Result.is_canceled', 'JobSubmitter._handle_completion', 'JobSubmitter._build_results', 'HpcSubmitter._update_completed_jobs', 'HpcSubmitter._cancel_job', 'JobQueue._check_completions'], 'native': ['HpcSubmitter.run'], 'lemmas': ['lemma_c03_unique_classification'], 'records': ['Result', 'JobSubmitter'], 'min_obligations': 600, 'assumptions': ['the completeness premise (every batch runs to its end => every job gets a result) is C05/C12 territory and only checked by the bounded simulator here', 'E-res; one row per job name (C01/C08); result rows well-formed (wf_result)'], 'not_decided': ['equality of exec_time_s etc. (not claimed)', 'cyclic configurations (C12)'], 'explanation': 'Deterministic core: the three classifiers are mutually exclusive and exhaustive on well-formed rows; _handle_completion reports exactly configured-minus-collected as missing; cancellation at both levels only for flagged jobs with a failed/canceled blocker; lemma L-C03: local consistency determines the classification uniquely on an acyclic graph, and the predicate mentions no batching/schedule parameter.'}
+PROP = {'id': 'C03',
+ 'level': 'proof',
+ 'functions': ['Result.is_successful',
+               'Result.is_failed',
+               'Result.is_canceled',
+               'JobSubmitter._handle_completion',
+               'JobSubmitter._build_results',
+               'HpcSubmitter._update_completed_jobs',
+               'HpcSubmitter._cancel_job',
+               'JobQueue._check_completions'],
+ 'native': ['HpcSubmitter.run', 'JobSubmitter._handle_completion'],
+ 'lemmas': ['lemma_c03_unique_classification'],
+ 'records': ['Result', 'JobSubmitter'],
+ 'min_obligations': 600,
+ 'assumptions': ['the completeness premise (every batch runs to its end => every job gets a result) is C05/C12 territory and only checked by the bounded '
+                 'simulator here',
+                 'E-res; one row per job name (C01/C08); result rows well-formed (wf_result)'],
+ 'not_decided': ['equality of exec_time_s etc. (not claimed)', 'cyclic configurations (C12)'],
+ 'explanation': 'Deterministic core: the three classifiers are mutually exclusive and exhaustive on well-formed rows; _handle_completion reports exactly '
+                'configured-minus-collected as missing; cancellation at both levels only for flagged jobs with a failed/canceled blocker; lemma L-C03: local '
+                'consistency determines the classification uniquely on an acyclic graph, and the predicate mentions no batching/schedule parameter.'}
